@@ -27,6 +27,10 @@ pub struct RustDocument {
     resolving: Vec<NodeId>,
     /// forward references that were already resolved in the current XML document
     resolved: HashMap<NodeId, Rc<RustNode>>,
+    /// components of the current XML document that sit on a chain of forward references which is too long to follow
+    too_deep: std::collections::HashSet<NodeId>,
+    /// set while a lookup fails because such a chain was cut
+    chain_cut: bool,
 }
 
 /// The kind of global component a reference is looking for; types and elements have separate symbol spaces in XSD
@@ -65,6 +69,7 @@ pub(crate) struct FileScope {
     current_target_namespace: Option<Rc<Namespace>>,
     resolving: Vec<NodeId>,
     resolved: HashMap<NodeId, Rc<RustNode>>,
+    too_deep: std::collections::HashSet<NodeId>,
 }
 
 impl RustDocument {
@@ -84,6 +89,7 @@ impl RustDocument {
             current_target_namespace: self.current_target_namespace.take(),
             resolving: std::mem::take(&mut self.resolving),
             resolved: std::mem::take(&mut self.resolved),
+            too_deep: std::mem::take(&mut self.too_deep),
         };
         collect_namespaces_on_node(doc.root_element(), self);
         scope
@@ -95,6 +101,7 @@ impl RustDocument {
         self.current_target_namespace = scope.current_target_namespace;
         self.resolving = scope.resolving;
         self.resolved = scope.resolved;
+        self.too_deep = scope.too_deep;
     }
 
     pub fn empty() -> Self {
@@ -110,6 +117,8 @@ impl RustDocument {
             soap_services: Vec::new(),
             resolving: Vec::new(),
             resolved: HashMap::new(),
+            too_deep: std::collections::HashSet::new(),
+            chain_cut: false,
         }
     }
 
@@ -252,6 +261,8 @@ fn create_mod_name_for_namespace(abbreviation: &str) -> String {
     format!("mod_{abbreviation}")
 }
 
+const MAX_FORWARD_REFERENCE_DEPTH: usize = 256;
+
 fn try_to_find_node_by_xml_name_in_xml_doc<'n>(
     start_node: &'n Node<'n, 'n>,
     xml_name: &str,
@@ -296,6 +307,15 @@ fn try_to_find_node_by_xml_name_in_xml_doc<'n>(
                 if doc.resolving.contains(&node.id()) {
                     return Err(WriterError::NodeNotFound(format!("{xml_name} (cyclic reference)")));
                 }
+                // every component that is read ahead of its turn is a level of recursion: a chain of thousands of
+                // forward references (each type extending the next one) would overflow the stack. Such a chain is
+                // cut, and what sat on it is remembered, so that it is not walked again from every one of its links
+                if doc.too_deep.contains(&node.id()) || doc.resolving.len() >= MAX_FORWARD_REFERENCE_DEPTH {
+                    doc.chain_cut = true;
+                    return Err(WriterError::NodeNotFound(format!(
+                        "{xml_name} (more than {MAX_FORWARD_REFERENCE_DEPTH} forward references deep)"
+                    )));
+                }
 
                 // the component is read in the context of its own schema (another inline schema of a WSDL, perhaps):
                 // that schema's target namespace and the prefixes in scope there; afterwards the referring
@@ -310,6 +330,12 @@ fn try_to_find_node_by_xml_name_in_xml_doc<'n>(
                 doc.resolving.pop();
                 doc.namespace_lookup = saved_lookup;
                 doc.current_target_namespace = saved_target_namespace;
+                if rust_node.is_err() && doc.chain_cut {
+                    doc.too_deep.insert(node.id());
+                }
+                if doc.resolving.is_empty() {
+                    doc.chain_cut = false;
+                }
 
                 let rust_node = Rc::new(rust_node?);
                 doc.resolved.insert(node.id(), rust_node.clone());
